@@ -3,6 +3,7 @@
 #ifndef VERIF_UNIFY_INTERP_HPP
 #define VERIF_UNIFY_INTERP_HPP
 #include <algorithm>
+#include <deque>
 #include <random>
 #include <set>
 #include <sstream>
@@ -13,6 +14,7 @@ namespace vu {
    namespace impl = ipr::impl;
    struct Interp {
       vh::World w;
+      std::deque<impl::ref_sequence<ipr::Type>> own_seqs;
       // operand pools for the random driver (ids by sort)
       std::vector<int> types, exprs, idents, products, sums, linkages, callconvs, transfers, logograms,
          exprlists, templates, foralls;
@@ -94,6 +96,13 @@ namespace vu {
                impl::Warehouse<ipr::Type> wh;
                for (std::size_t k = 0; k < a.size(); ++k) wh.push_back(T(static_cast<int>(k)));
                r = op == "get_product" ? w.reg(lx.get_product(wh)) : w.reg(lx.get_sum(wh));
+            }
+            else if (op == "get_product_ref" or op == "get_sum_ref") {
+               // a sequence object owned by the caller (kept alive as long as the Lexicon), not the interned one
+               own_seqs.emplace_back();
+               for (std::size_t k = 0; k < a.size(); ++k) own_seqs.back().push_back(&T(static_cast<int>(k)));
+               const ipr::Sequence<ipr::Type>& sq = own_seqs.back();
+               r = op == "get_product_ref" ? w.reg(lx.get_product(sq)) : w.reg(lx.get_sum(sq));
             }
             else if (op == "get_product_of" or op == "get_sum_of") {
                const ipr::Sequence<ipr::Type>* s = nullptr;
@@ -193,7 +202,7 @@ namespace vu {
 
    const std::vector<std::string> all_ops {
       "get_pointer", "get_reference", "get_rvalue_reference", "get_array", "get_qualified", "get_function",
-      "get_function_x", "get_function_e", "get_function_ex", "get_product", "get_sum", "get_product_of",
+      "get_function_x", "get_function_e", "get_function_ex", "get_product", "get_sum", "get_product_ref", "get_sum_ref", "get_product_of",
       "get_sum_of", "get_forall", "get_ptr_to_member", "get_tor", "get_as_type", "get_as_type_x", "get_as_type_id",
       "get_decltype", "get_auto", "get_transfer_from_linkage", "get_transfer_from_convention", "get_transfer",
       "get_identifier", "get_operator", "get_suffix", "get_conversion", "get_ctor_name", "get_dtor_name",
@@ -234,7 +243,7 @@ namespace vu {
          if (not need(in.products)) return false;
          a.push(rng.pick(in.products)); a.push(rng.pick(in.types)); a.push(anyexpr()); a.push(rng.pick(in.transfers));
       }
-      else if (op == "get_product" or op == "get_sum") {
+      else if (op == "get_product" or op == "get_sum" or op == "get_product_ref" or op == "get_sum_ref") {
          int n = rng.below(4);
          for (int k = 0; k < n; ++k) a.push(rng.pick(in.types));
       }
